@@ -128,6 +128,29 @@ class VLoop(asyncio.AbstractEventLoop):
             self.run_ready()
         self._now = target
 
+    def io_at_next_timer(self, inject, horizon=60.0):
+        """One loop iteration in which an I/O event and the next due timer coincide.  As in
+        asyncio's _run_once the I/O callback runs first, then the timers that are due; callbacks
+        scheduled by either of them run in the following iteration.  Returns False (after running
+        inject alone) when no timer is due within the horizon."""
+        self.run_ready()
+        live = [t for t in self._timers if not t[2]._cancelled]
+        if not live or min(live)[0] - self._now > horizon:
+            inject()
+            self.run_ready()
+            return False
+        self._now = max(self._now, min(live)[0])
+        inject()
+        later, self._ready = self._ready, []
+        while self._timers and self._timers[0][0] <= self._now:
+            _when, _, h = heapq.heappop(self._timers)
+            if not h._cancelled:
+                h._run()
+                self.steps += 1
+        self._ready = later + self._ready
+        self.run_ready()
+        return True
+
     def pending_timers(self):
         return [(w, h) for (w, _s, h) in self._timers if not h._cancelled]
 
